@@ -1,5 +1,5 @@
-import Driver.McCmd
-import Anysystem.Model.Sim
+import Driver.McRun
+import Anysystem.Model.Snapshot
 /-! `sim` sub-command: drives the mirrored simulator with one API call per line. -/
 namespace Driver
 open Anysystem
@@ -53,6 +53,9 @@ structure SimSt where
   rules : List (Nat × SRule) := []
   traceSeen : Nat := 0
   dead : Bool := false
+  cbs : List (List String) := []
+  refenum : Bool := false
+  mcRuns : Nat := 0
 
 def simHandler (st : SimSt) : SHandler PState Float :=
   simScriptHandler (st.recs.map fun (p, rec) =>
@@ -155,6 +158,23 @@ def simOp (st : SimSt) (ws : List String) : SimSt × List String :=
   | ["crash", n] => okR (s.crashNode (name! n)) "ok" true
   | ["recover", n] => okR (s.recoverNode (name! n)) "ok"
   | ["obs"] => (st, simFull s)
+  | ["proj"] =>
+    let topo := s.nodes.map fun nd => (nd.1, nd.2.procs.map (·.1))
+    let crashed := (s.nodes.filter (·.2.crashed)).map (·.1)
+    let procs := s.nodes.flatMap fun nd => nd.2.procs.map fun pe => (pe.1, ({ st := pe.2.st, outbox := pe.2.outbox } : RProc PState))
+    (st, ["proj " ++ showProj topo crashed procs [] []])
+  | "cb" :: rest => ({ st with cbs := st.cbs ++ [rest] }, [])
+  | ["refenum"] => ({ st with refenum := true }, [])
+  | "mc" :: rest =>
+    -- `ModelChecker::new(&sys)` followed by one run; the simulator state is not affected
+    match snapshot (fun (x : Float) => x.toBits.toNat) s with
+    | .error _ => fail st
+    | .ok sys =>
+      let procs := s.nodes.flatMap fun nd => nd.2.procs.map fun pe => (pe.1, nd.1, (st.recs.find? (·.1 == pe.1)).map (·.2) |>.getD false)
+      let mst : McSt := { nodes := s.nodes.map (·.1), procs, rules := st.rules, sys := some sys, cbs := st.cbs,
+                          refenum := st.refenum, runs := st.mcRuns }
+      let (mst', lines) := doRun mst rest false
+      ({ st with cbs := [], mcRuns := st.mcRuns + 1, dead := mst'.dead }, lines)
   | _ => (st, ["bad-op " ++ " ".intercalate ws])
 
 def simLine (st : SimSt) (line : String) : SimSt × List String :=
